@@ -279,13 +279,21 @@ def run_matrix(task):
     scale = max(abs(v) for r in rows for v in r)
     for seq in itertools.product(range(5), repeat=task["depth"]):
         m = RunningCovarianceMatrix(n)
+        # a second accumulator alive at the same time, fed other data in
+        # between (the two must not influence each other)
+        other = RunningCovarianceMatrix(n)
         data = [rows[i] for i in seq]
         for j, r in enumerate(data):
             if j % 2:
                 m.update(*r)
             else:
                 m.update_from_it(*[[v] for v in r])
+            other.update(*rows[(seq[j] + 2) % 5][::-1])
             out["transitions"] += 1
+        if other.count != len(data):
+            out["vio"].setdefault(tag + "interference", (
+                list(seq), "a second accumulator counts %r after %d updates"
+                % (other.count, len(data))))
         out["states"] += 1
         k = len(data)
         cols = [[Fraction(r[c]) for r in data] for c in range(n)]
